@@ -4,6 +4,7 @@ from models import fa as M
 from sim.core import FAILED
 from sim.values import key
 
+from props import scaled as SC
 ID = "C02"
 CASES = {"quick": 6000, "thorough": 40000}
 RULE = ("seeded ordered pairs of automata; half made language-equal on purpose by independent means (explicit "
@@ -108,6 +109,9 @@ def _fix_kind(c):
 
 
 def gen(rng, tier):
+    sc = SC.maybe(rng, ID)
+    if sc is not None:
+        return sc
     a = G.gen_fa(rng, adversarial=rng.chance(0.1))
     if rng.chance(0.55):
         b = _variant(rng, a)
@@ -133,6 +137,12 @@ def gen(rng, tier):
 
 
 def shrink(case):
+    if SC.is_scaled(case):
+        return iter(())
+    return _shrink(case)
+
+
+def _shrink(case):
     for side in ("a", "b"):
         for c in G.shrink_fa(case[side]):
             d = dict(case)
@@ -174,6 +184,8 @@ def _iso(r1, r2):
 
 
 def run(case, out):
+    if SC.is_scaled(case):
+        return SC.run(case, out)
     ca, cb = case["a"], case["b"]
     ra, rb = G.ref_of(ca), G.ref_of(cb)
     fa, fb = G.build(ca), G.build(cb)
